@@ -81,6 +81,16 @@ var c17Paths = []string{
 	"g:shrink-back",
 	"h:vacuum-across",
 	"i:downtime-growth-app-checkpoint",
+	"k:reopen-after-page-size-change",
+}
+
+// c17AltPageSize is the page size of the FIRST session of path k (the database is then rebuilt with the page size of
+// the case while litestream is stopped, and the same litestream object is started again).
+func c17AltPageSize(ps int) int {
+	if ps == 4096 {
+		return 1024
+	}
+	return 4096
 }
 
 // c17Spec names one enumerated case; Ops (replay only) overrides the generator.
@@ -204,6 +214,11 @@ func (r *c17Runner) do(op string) {
 		return
 	}
 	switch name {
+	case "REBUILD":
+		// a new database with another page size; local state and replica were cleared, file names start over
+		r.lock = c17Lock(r.s.Cfg.PageSize)
+		r.res.Lock = r.lock
+		r.seen = map[string]bool{}
 	case "S", "LC", "SNAP":
 		r.scanLTX()
 	case "SW", "CMP":
@@ -490,6 +505,19 @@ func (r *c17Runner) generate(sp c17Spec, T int) {
 		r.mark()
 		r.do("WN:2")
 		r.do("SW")
+	case "k":
+		// litestream stop; the database is rebuilt with another page size; litestream reset; start of the SAME
+		// object: whatever it remembers of the first session's geometry is stale
+		r.do("SW")
+		r.do("CL")
+		r.do("REBUILD:" + strconv.Itoa(sp.PageSize))
+		r.do("START")
+		r.do("SW")
+		r.grow(T + sp.Adj)
+		r.do("SW")
+		r.mark()
+		r.do("U")
+		r.do("SW")
 	default:
 		r.harness("unknown path " + sp.Path)
 	}
@@ -516,8 +544,13 @@ func c17Run(sp c17Spec) *c17Result {
 	res := &c17Result{Spec: sp, Lock: c17Lock(sp.PageSize)}
 	t0 := time.Now()
 	defer func() { res.Dur = time.Since(t0) }()
+	first := sp.PageSize
+	if strings.HasPrefix(sp.Path, "k:") {
+		first = c17AltPageSize(sp.PageSize)
+		res.Lock = c17Lock(first) // until the REBUILD operation
+	}
 	cfg := cfgWith(func(c *scn.Config) {
-		c.PageSize = sp.PageSize
+		c.PageSize = first
 		c.AutoVacuum = sp.AV
 	})
 	s, err := scn.NewOpt(cfg, func(s *scn.Scn) { s.NoLedger = true })
